@@ -1,19 +1,15 @@
 CONSTANTS
-  NReq = 3
+  NReq = 2
   NOrig = 1
-  MaxDial = 3
+  MaxDial = 2
   MaxTick = 0
   AsBuilt = {}
   Caps = {TRUE, FALSE}
-  MaxIdles = {1, 2}
+  MaxIdles = {1}
   IdleTimeouts = {0}
   Protos = {TRUE, FALSE}
-  Faults <- AllFaults
+  Faults <- SomeFaults
   Spurious = FALSE
-  AllowDrop = FALSE
-  GenDepth = 30
-  MaxCancel = 1
-INIT InitH
-NEXT NextH
-INVARIANT Emit
+SPECIFICATION FairSpec
+PROPERTY C03live
 CHECK_DEADLOCK FALSE
